@@ -966,3 +966,36 @@ def r07_12_two_digit_year(ctx: Ctx) -> RuleResult:
     if not found:
         raise AnalysisError("century adjustment for two-digit years not found in the text layer")
     return rr
+
+
+@rule("C07")
+def r07_13_calendar_text_symmetry(ctx: Ctx) -> RuleResult:
+    """The calendar specifier: parsing matches the text against `CalendarSystem.ids` and resolves it with `for_id`, so formatting
+    must write the calendar's *id* (ids are unique; names are shared by all Hebrew, all Hijri and all Persian variants)."""
+    rr = RuleResult("R07.13", "calendar specifier: the format action writes the id that the parse action looks calendars up by", min_instances=1)
+    M = ctx.M
+    found = False
+    for f in sorted(set(M.func_of_node.values()), key=lambda x: x.qual):
+        if isinstance(f.node, ast.Lambda) or "/text/" not in f.mod.rel or not f.nested:
+            continue
+        lookups = {x.func.attr for g in f.nested.values() for x in ast.walk(g.node) if isinstance(x, ast.Call) and isinstance(x.func, ast.Attribute) and unparse(x.func.value) == "CalendarSystem" and x.func.attr in ("for_id", "for_name")}
+        if not lookups:
+            continue
+        found = True
+        rr.inst()
+        key = "id" if "for_id" in lookups else "name"
+        written = []
+        for g in f.nested.values():
+            for x in ast.walk(g.node):
+                if isinstance(x, ast.Call) and isinstance(x.func, ast.Attribute) and x.func.attr == "append" and x.args and isinstance(x.args[0], ast.Attribute):
+                    written.append((g, x, x.args[0].attr))
+        if not written:
+            rr.fail(f.qual, "parse action resolves calendars but no format action writes one", ctx.loc(f))
+        elif all(a == key for _, _, a in written):
+            rr.ok({"handler": f.qual, "parse looks up by": key, "format writes": key})
+        else:
+            g, x, a = next(w for w in written if w[2] != key)
+            rr.fail(f.qual, f"the format action writes the calendar's `{a}` but the parse action looks calendars up by `{key}`: calendars whose {a} differs from their {key} (Hebrew, Hijri, Persian variants) do not parse back", ctx.loc(g, x))
+    if not found:
+        raise AnalysisError("calendar specifier handler (CalendarSystem.for_id in a nested parse action) not found")
+    return rr
